@@ -89,17 +89,23 @@ def gen_case(seed, tier, prop):
             prog.append(["aclose", rng.random() < 0.5])
         receivers.append(prog)
     ext = []
+    native = rng.random() < 0.3       # this case also cancels whole tasks natively (asyncio Task.cancel())
     for _ in range(rng.randint(0, 6)):
         t = rng.choice([0, 0.125, 0.125, 0.25, 0.25, 0.375, 0.5, 0.75])
         if rng.random() < 0.2:
             ext.append([t, "close", "S%d" % rng.randrange(ns)])      # closed by somebody else, even mid-send
+        elif native and rng.random() < 0.4:
+            ext.append([t, "ncancel", rng.choice(["S%d" % rng.randrange(ns), "R%d" % rng.randrange(nr)])])
         elif nsid[0]:
             ext.append([t, "cancel", rng.randrange(nsid[0])])
     ext.sort(key=lambda e: e[0])
     loop = LoopConfig(eager=rng.random() < 0.3, cap=8000, p_late=rng.choice([0, 0, 0.2]),
                       p_stall=rng.choice([0, 0, 0.05])).to_json()
+    # 1 case in 40 of those with native cancellations may also cancel a receiver that has possibly been handed an
+    # item already (known finding F17); all the others only cancel receivers that are provably still queued
     return {"engine": "mem", "prop": prop, "size": size, "senders": senders, "receivers": receivers, "ext": ext,
-            "loop": loop, "sched_seed": rng.getrandbits(32)}
+            "loop": loop, "sched_seed": rng.getrandbits(32),
+            "unguarded_native": bool(native and prop == "C12" and rng.random() < 0.05)}
 
 
 class MemRun:
@@ -126,6 +132,9 @@ class MemRun:
         self.last_s_close = None    # (seq, iteration) when the last send clone was closed
         self.last_r_close = None
         self.done = 0
+        self.task_obj = {}
+        self.ncancelled = set()
+        self.unguarded_native = 0
 
     def v(self, rule, detail, sig=None):
         prop = rule.split(".")[0]
@@ -211,6 +220,13 @@ class MemRun:
             self.wake_check(op, self.last_r_close, "BrokenResourceError")
         elif outcome == "ok" and kind == "send":
             self.accepted[op["item"]] = r[0]
+            if self.case.get("unguarded_native") and not self.unguarded_native:
+                # directed fault for known finding F17: this send may just have handed its item to the first blocked
+                # receiver; cancel that receiver natively now, before it resumes
+                blocked = [o for o in self.pending.values() if o["kind"] == "recv" and o["blocked_since"] is not None]
+                cands = [o for o in blocked if not o["cp"]]
+                if cands and self.s0.statistics().tasks_waiting_receive < len(blocked):
+                    self.do_ncancel("harness", min(cands, key=lambda o: o["begin"])["label"])
             if op["other_closed_at_begin"]:
                 self.v("C13.broken", f"send on {op['label']} succeeded although every receive clone had been closed before the call")
             self.fifo_check(op)
@@ -261,6 +277,35 @@ class MemRun:
             self.nontrivial = True
         self.observe("after cancel")
 
+    def do_ncancel(self, by, label):
+        """Native asyncio cancellation of a whole sender / receiver task (asyncio.wait_for, asyncio.timeout, a foreign
+        framework).  A blocked receiver is only cancelled while it is provably still queued (every blocked receive of
+        the harness is counted in tasks_waiting_receive, so nobody has been handed an item or skipped): anyio protects
+        that case (the next send skips a receiver with a pending cancellation).  What it cannot protect - a native
+        cancellation that arrives after the hand-over, before the receiver has resumed - is known finding F17 and is
+        generated only in cases flagged `unguarded_native`."""
+        t = self.task_obj.get(label)
+        if t is None or t.done() or label in self.ncancelled or label == by or getattr(self, "finished", False):
+            return
+        ops = [o for o in self.pending.values() if o["label"] == label and o["blocked_since"] is not None]
+        op = ops[0] if ops else None
+        if op is not None and op["kind"] == "recv":
+            blocked = sum(1 for o in self.pending.values() if o["kind"] == "recv" and o["blocked_since"] is not None)
+            if self.s0.statistics().tasks_waiting_receive != blocked or op["cp"]:
+                if not self.case.get("unguarded_native"):
+                    return
+                self.unguarded_native += 1
+        self.ncancelled.add(label)
+        self.h.rec("native_cancel", by, label)
+        t.cancel()
+        if op is not None:
+            op["cp"] = True
+            self.faults["native_cancel_blocked_" + op["kind"]] += 1
+            self.nontrivial = True
+        else:
+            self.faults["native_cancel_other"] += 1
+        self.observe("after native cancel")
+
     # -- programs ------------------------------------------------------------------------------------
     async def main(self):
         self.h.loop = loop = self.sim.loop
@@ -280,6 +325,8 @@ class MemRun:
         for t, what, arg in case["ext"]:
             if what == "cancel":
                 loop.call_external_at(t, self.do_cancel, "ext", arg)
+            elif what == "ncancel":
+                loop.call_external_at(t, self.do_ncancel, "ext", arg)
             else:
                 loop.call_external_at(t, self.ext_close, arg)
         self.jh = loop.call_at(6.0, self.janitor)
@@ -379,7 +426,9 @@ class MemRun:
                 self.rhandles[label].close()
 
     async def sender(self, label, prog):
+        import asyncio
         self.busy.add(label)
+        self.task_obj[label] = asyncio.current_task()
         seqno = 0
         try:
             for st in prog:
@@ -441,6 +490,9 @@ class MemRun:
                                 self.end(o, "ok")
                     finally:
                         self.scopes.pop(sid, None)
+        except __import__("asyncio").CancelledError:
+            if label not in self.ncancelled:      # a native cancellation ends this task only (see engines/permits.py)
+                raise
         finally:
             self.busy.discard(label)
             self.done += 1
@@ -472,7 +524,9 @@ class MemRun:
         return res
 
     async def receiver(self, label, prog):
+        import asyncio
         self.busy.add(label)
+        self.task_obj[label] = asyncio.current_task()
         try:
             for st in prog:
                 op = st[0]
@@ -542,6 +596,9 @@ class MemRun:
                     for _ in range(12):
                         if await self.do_recv(label, st[1]) != "item":
                             break
+        except __import__("asyncio").CancelledError:
+            if label not in self.ncancelled:      # a native cancellation ends this task only (see engines/permits.py)
+                raise
         finally:
             self.busy.discard(label)
             self.done += 1
@@ -575,8 +632,12 @@ class MemRun:
                 self.v("C12.invented", f"item {item} was delivered although its send did not succeed "
                                        f"({'WouldBlock' if item in self.failed_sends else 'unknown item'})")
         if len(missing) > unknown:
+            f17 = 0 < len(missing) - unknown <= self.unguarded_native
             self.v("C12.lost", f"accepted item(s) {missing[:5]} were neither received nor left in the buffer "
-                               f"({unknown} items remain in a stream whose receive side is closed)")
+                               f"({unknown} items remain in a stream whose receive side is closed"
+                               + (f"; {self.unguarded_native} blocked receive(s) were cancelled natively after an item may "
+                                  f"already have been handed to them" if f17 else "") + ")",
+                   sig="C12.lost:native-cancel-after-handover" if f17 else None)
         elif self.accepted:
             self.probes["conservation_checked"] += 1
         for lab, lst in self.received.items():
